@@ -761,6 +761,9 @@ func relevantScan(scan []string, runs []*FuncRun, callees map[string]bool) []str
 			continue
 		}
 		head, rest := s[:i], s[i+2:]
+		if j := strings.Index(head, "#"); j >= 0 {
+			head = head[:j] // contract variant of a function
+		}
 		switch {
 		case strings.HasPrefix(rest, "axiom "):
 			if pkgs[head] {
@@ -770,7 +773,7 @@ func relevantScan(scan []string, runs []*FuncRun, callees map[string]bool) []str
 			if callees[head] || keys[head] {
 				out = append(out, s)
 			}
-		case strings.HasPrefix(rest, "loop "):
+		case strings.HasPrefix(rest, "loop "), strings.HasPrefix(rest, "partial interference model"):
 			if keys[head] {
 				out = append(out, s)
 			}
